@@ -9,7 +9,7 @@ Nothing here is a registered check."""
 import concurrent.futures as cf, json, os, pathlib, shutil, subprocess, sys, tempfile
 
 VERIF = pathlib.Path(__file__).resolve().parent.parent
-ROOT = VERIF / "refactorings"
+ROOT = pathlib.Path(os.environ.get("REF_ROOT", str(VERIF / "refactorings")))
 PY = "/venv/bin/python"
 PROPS = [f"C{i:02d}" for i in range(1, 21)]
 
